@@ -221,9 +221,62 @@ def run(ctx):
             ctx.count(small, kind=name + ":" + c["op"])
             for key, msg in fails:
                 ctx.violation(key, msg, c)
+    tc = tiny_cases()
+    for c, fails in zip(tc, ctx.pmap(check_tiny, tc, chunksize=2)):
+        ctx.count({"k": "tiny", "gate": c["gate"], "angle": c["angle"], "n": c["n"], "q": c["q"]}, kind="tiny angles (off the ring's grid)")
+        for key, msg in fails:
+            ctx.violation(key, msg, c)
+    ctx.bounds["tiny angles"] = "RZ, PHASE, RX, CPHASE, ZZ at 1.8e-5, 3e-6, 2e-7 rad on 2-3 qubits, single application and 200 in a row"
+
+
+def check_tiny(ctx, c):
+    """angles far below the grid of the exact ring (1.8e-5, 3e-6, 2e-7 rad): applying the operation, and a circuit of many such
+    operations, is the gate's matrix applied - a gate that is NEARLY the identity is not the identity.  The matrices are the closed
+    forms of the specification's polynomials (Gates.tla) evaluated in numpy, embedded by numpy.kron on adjacent ascending qubits."""
+    import cmath
+
+    from orquestra.quantum.circuits import CPHASE, PHASE, RX, RZ, ZZ, Circuit
+    from orquestra.quantum.runners.symbolic_simulator import SymbolicSimulator
+
+    name, th, q, n, reps = c["gate"], c["angle"], c["q"], c["n"], c["reps"]
+    e = cmath.exp
+    mats = {"RZ": np.diag([e(-0.5j * th), e(0.5j * th)]), "PHASE": np.diag([1, e(1j * th)]),
+            "RX": np.array([[np.cos(th / 2), -1j * np.sin(th / 2)], [-1j * np.sin(th / 2), np.cos(th / 2)]]),
+            "CPHASE": np.diag([1, 1, 1, e(1j * th)]), "ZZ": np.diag([e(-0.5j * th), e(0.5j * th), e(0.5j * th), e(-0.5j * th)])}
+    G = mats[name]
+    k = 1 if G.shape[0] == 2 else 2
+    full = np.kron(np.kron(np.eye(2**q), G), np.eye(2 ** (n - q - k)))
+    gate = {"RZ": RZ, "PHASE": PHASE, "RX": RX, "CPHASE": CPHASE, "ZZ": ZZ}[name](th)
+    op = gate(*range(q, q + k))
+    rng = np.random.RandomState(7 + n)
+    v = rng.normal(size=2**n) + 1j * rng.normal(size=2**n)
+    v = v / np.linalg.norm(v)
+    out = []
+    desc = "%s(%g)%s on %d qubits" % (name, th, tuple(range(q, q + k)), n)
+    got = np.asarray(op.apply(v), dtype=complex).reshape(-1)
+    if np.max(np.abs(got - full @ v)) > 1e-12:
+        out.append(("tiny:apply", "%s: apply differs from the gate's matrix applied by %.3g" % (desc, np.max(np.abs(got - full @ v)))))
+    if np.max(np.abs(cc.to_np(op.lifted_matrix(n)) - full)) > 1e-12:
+        out.append(("tiny:lift", "%s: lifted_matrix differs from the definition" % desc))
+    circ = Circuit([op] * reps, n_qubits=n)
+    want = np.linalg.matrix_power(full, reps) @ v
+    for nm, fn in (("bundled simulator", lambda: SymbolicSimulator().get_wavefunction(circ, initial_state=v).amplitudes), ("to_unitary", lambda: cc.to_np(circ.to_unitary()) @ v)):
+        r = np.asarray(fn(), dtype=complex).reshape(-1)
+        if np.max(np.abs(r - want)) > 1e-10:
+            out.append(("tiny:circuit", "%s, %d times in a row, %s: final state off by %.3g" % (desc, reps, nm, np.max(np.abs(r - want)))))
+    return out
+
+
+def tiny_cases():
+    return [{"op": "tiny", "gate": g, "angle": a, "q": q, "n": n, "reps": 200, "prog": [], "U": []} for g in ("RZ", "PHASE", "RX", "CPHASE", "ZZ") for a in (1.8e-5, 3e-6, 2e-7) for n in (2, 3) for q in (0, n - 2)]
 
 
 def replay(ctx, case):
+    if case.get("op") == "tiny":
+        ctx.count({"k": "tiny", "gate": case["gate"], "angle": case["angle"]})
+        for key, msg in check_tiny(ctx, case):
+            ctx.violation(key, msg, case)
+        return
     ctx.count({"k": case["op"], "circuit": cc.describe(case["prog"], case["n"])})
     fails = check_lift(ctx, case) if case["op"] == "lift" else check_program(ctx, case)
     for key, msg in fails:
